@@ -161,6 +161,8 @@ class Sandbox:
                 st = os.stat(p)
                 with open(p, "rb") as f:
                     data = f.read()
+                if canonical_state and re.match(r"\.gwf/[^/]*\.tmp$", rel):
+                    continue  # left-over temporary of an interrupted atomic write
                 if canonical_state and re.match(r"\.gwf/([a-z]+-backend-tracked|spec-hashes)\.json$", rel):
                     try:
                         val = json.loads(data or b"{}")
@@ -234,6 +236,15 @@ class Sandbox:
         e.pop("GWF_VERIF", None)
         return e
 
+    def gwf_killing_writer(self, args, killenv, timeout=120):
+        """gwf in a child interpreter that dies inside the chosen write of a state file
+        (harness-side wrapper around builtins.open; nothing in /repo is touched)."""
+        e = self.env()
+        e.update(killenv)
+        p = subprocess.run([sys.executable, "-c", KILLING_WRITER] + list(args), cwd=self.proj, env=e,
+                           stdout=subprocess.PIPE, stderr=subprocess.PIPE, text=True, timeout=timeout)
+        return Result(p.returncode, p.stdout, p.stderr)
+
     def gwf(self, args, cwd=None, input=None, sub=False, timeout=120):
         cwd = cwd or self.proj
         if sub:
@@ -249,6 +260,42 @@ class Sandbox:
             )
             return Result(p.returncode, p.stdout, p.stderr)
         return gwf_inproc(args, cwd, self.bin, input)
+
+
+KILLING_WRITER = r"""
+import builtins, os, sys
+_o = builtins.open
+F = os.environ["GWFV_KILL_FILE"]; OCC = int(os.environ["GWFV_KILL_OCC"]); POS = int(os.environ["GWFV_KILL_POS"])
+cnt = [0]
+class W:
+    def __init__(s, f): s.f = f; s.n = 0
+    def write(s, data):
+        if s.n >= POS:
+            s.f.flush(); os._exit(137)
+        s.n += 1
+        return s.f.write(data)
+    def close(s):
+        s.f.flush(); os._exit(137)
+    def __enter__(s): return s
+    def __exit__(s, *a): s.close()
+    def __getattr__(s, k): return getattr(s.f, k)
+def o2(file, mode="r", *a, **k):
+    f = _o(file, mode, *a, **k)
+    if isinstance(file, (str, bytes, os.PathLike)) and F in os.fspath(file) and any(c in mode for c in "wxa+"):
+        # only the write made while the command shuts down (under close()/__exit__): a kill
+        # inside the write that records the job accepted last is the residual window A6
+        fr = sys._getframe(1); names = set()
+        while fr is not None:
+            names.add(fr.f_code.co_name); fr = fr.f_back
+        if names & {"close", "__exit__"}:
+            cnt[0] += 1
+            if cnt[0] == OCC:
+                return W(f)
+    return f
+builtins.open = o2
+from gwf.cli import main
+main()
+"""
 
 
 def _has_main():
